@@ -42,7 +42,9 @@ class Color:
 
             self._rgb = parse_color_to_rgb(self.original, background=bg_rgb)
             self._parsed = True
-        except ValueError as e:
+        except (ValueError, TypeError) as e:
+            # the HSL/HSLA tuple paths convert elements with float(), which raises
+            # TypeError (not ValueError) for None or other non-numeric elements
             self._error = str(e)
             self._parsed = True
 
